@@ -36,6 +36,14 @@ def rule_a(ctx):
         fn = K.owner_fn(P, b).name
         ctx.ob("insert-locked|%s" % fn, K.queue_lock_held(b, s),
                "the insertion must happen while the scheduler-queue guard is held", [s])
+        # accepted => inserted: every Ok result of the function is produced after the insertion (an added fast path that returns Ok
+        # without inserting drops an accepted request silently)
+        oks = [r for r in K.ret_assigns(b) if K.result_variant_of_ret(r) == "Ok"]
+        ctx.ob("ok-only-after-insert|%s" % fn, bool(oks) and all(b.dominates(s, r) for r in oks),
+               "Ok(..) is returned only on paths that performed the insertion (found %d Ok sites)" % len(oks), oks or [s])
+        others = [r for r in K.ret_assigns(b) if K.result_variant_of_ret(r) is None]
+        ctx.ob("result-is-ok-or-err|%s" % fn, not others,
+               "every result of the function is an explicit Ok(..) / Err(..) (a forwarded result would not be classified)", others or [s])
         _, comp0 = c01.classify_insert(s)
         into = next(iter(comp0))
         into_site = Site(b, into[1], TERM)
@@ -191,3 +199,45 @@ def rule_inventory(ctx):
 
 
 RULES.append(("C08.f", "state-mutation inventory: no new site that changes the content of the state this property rests on", rule_inventory))
+
+
+def rule_wrappers(ctx):
+    """The public entry points (Scheduler::schedule*, Context::schedule*) hand every request to the validated schedule*_from
+    function: on every path, with the caller's own deadline, and their result is that function's result."""
+    P = ctx.prog
+    callers = P.callers_of(r"^simulation::scheduler::GlobalScheduler::schedule\w*_from$")
+    n = 0
+    for b, s in callers:
+        if "::tests" in b.name:
+            continue
+        n += 1
+        fn = b.name
+        rets = [Site(b, r, TERM) for r in b.return_blocks()]
+        ctx.ob("wrapper-always-delegates|%s" % fn, bool(rets) and all(b.dominates(s, r) for r in rets),
+               "every path through the public scheduling method reaches the validated schedule*_from call (no fast path around it)", [s])
+        do = K.call_arg_origins(s, 1)
+        ctx.ob("wrapper-forwards-deadline|%s" % fn, bool(do) and all(o[0] == "arg" for o in do),
+               "the deadline handed to schedule*_from is the caller's deadline argument, unmodified (%s)" % K.describe_origin(do), [s])
+        ras = K.ret_assigns(b)
+        ok = bool(ras)
+        for r in ras:
+            if r.is_term:
+                ok = ok and (r.key() == s.key() or r.node.get("callee_n") == "std::ops::FromResidual::from_residual")
+            elif K.result_variant_of_ret(r) == "Ok":
+                ok = ok and b.dominates(s, r)
+            elif K.result_variant_of_ret(r) == "Err":
+                pass
+            else:
+                ro = b.origins(r.node["r"]["o"], r) if r.node["r"]["r"] == "use" else frozenset()
+                ok = ok and bool(ro) and all(x[0] == "call" and x[1] == s.b for x in (core_root(o) for o in ro))
+        ctx.ob("wrapper-result-from-delegate|%s" % fn, ok,
+               "the method's result is the result of schedule*_from (Ok is never produced without it)", ras or [s])
+    ctx.ob("floor|schedule-wrappers", n >= 9, "expected >= 9 public entry points delegating to schedule*_from (found %d)" % n, [s for _, s in callers])
+
+
+def core_root(o):
+    from ..core import origin_proj_names
+    return origin_proj_names(o)[0]
+
+
+RULES.append(("C08.g", "public scheduling methods always delegate to the validated schedule*_from with the caller's deadline", rule_wrappers))
